@@ -4,6 +4,7 @@ looks at DDL text and never calls the parser)."""
 import itertools
 
 from vf.gen.render import I, K, L, N, P, T, comma_list, dotted, paren, render
+from vf.gen.vocab import DECIMALS, pick_names
 
 # --------------------------------------------------------------------------- types
 # (words, size)   size: None | [n] | [p, s]
@@ -31,7 +32,7 @@ DEFAULTS = [
     (paren(L("'N'")), "'N'"), (paren(L("''")), "''"), (paren(L("'a b'")), "'a b'"), (paren(N(0)), 0), (paren(N(15)), 15),
     (paren(T("now()")), "now()"), (paren(T("NULL")), "NULL"), (paren(T("-1")), "-1"), (paren(T("1.5")), "1.5"), (T("+5"), "+5"),
     (paren(T("getdate()")), "getdate()"),
-]
+] + [(T(d), d) for d in DECIMALS] + [(paren(T(d)), d) for d in DECIMALS[:4]]
 
 ACTIONS = [None, "CASCADE", "RESTRICT", "cascade", "Restrict"]
 
@@ -321,6 +322,7 @@ def gen_opt(rng, kind, colname):
 
 
 CORE_OPT_KINDS = ["null", "default", "pk", "unique", "ref"]
+TRICKY_P = 0.25      # share of column names taken verbatim from the calibrated tricky vocabulary (vf.gen.vocab)
 
 
 def gen_column(rng, i, allow_pk=True, kinds=CORE_OPT_KINDS, max_opts=4, name=None):
@@ -337,13 +339,18 @@ def gen_table(rng, k, ncols=None, clauses=False, schema_choices=(None, "dev", "S
     n = ncols or rng.randint(1, max_cols)
     cols = []
     has_pk = False
+    tricky = pick_names(rng, n, p=TRICKY_P)
     for i in range(n):
-        c = gen_column(rng, i, allow_pk=not has_pk, kinds=kinds)
+        c = gen_column(rng, i, allow_pk=not has_pk, kinds=kinds, name=tricky[i])
         if any(o["k"] == "pk" for o in c["opts"]):
             has_pk = True
         cols.append(c)
     items = [("col", c) for c in cols]
-    t = {"schema": rng.choice(list(schema_choices)), "name": "tbl%d" % k,
+    tname = "tbl%d" % k
+    if rng.random() < TRICKY_P / 2:
+        tname = pick_names(rng, 1, p=1.0, taken=[c["name"] for c in cols])[0] or tname
+        tname = tname + "_%d" % k if k else tname            # keep table names of one script distinct
+    t = {"schema": rng.choice(list(schema_choices)), "name": tname,
          "prefix": rng.choice(["plain", "plain", "plain", "if_not_exists", "or_replace"]), "items": items}
     if clauses:
         add_clauses(rng, t, has_pk)
